@@ -194,7 +194,8 @@ def main(argv):
     for f, k in known_hits:
         out_lines.append('KNOWN-FINDING: property=%s %s %s' % (a.prop, k['obligation'], k.get('what', '')))
     # a registered probe that finds a failing input on the real code is a violation by itself
-    probe_viol = [p for p in probe_results if p['found_failing_input'] and not violations]
+    known_probes = {k.get('probe') for k in known if k.get('probe')}
+    probe_viol = [p for p in probe_results if p['found_failing_input'] and not violations and p['probe'] not in known_probes]
     if violations or probe_viol:
         exit_code = 1
         seen = set()
